@@ -242,6 +242,8 @@ def exec_interchange(case, obs):
         wf = (-af).astype(np.float32).astype(np.float64) if a.dtype == np.float64 else -af   # float64 data is narrowed to float32 on disk
         obs.check((pi["nx"], pi["ny"], pi["nz"]) == a.shape and bool(np.array_equal(di.astype(np.float64)[holds], wf[holds])), "invert_contrast", "inverted-file-negated",
                   lambda: f"dims {(pi['nx'], pi['ny'], pi['nz'])}; " + (first_diff(di.astype(np.float64), wf) if di.shape == a.shape else ""), cls=cls)
+        wdt = np.dtype(np.float32) if a.dtype == np.float64 else a.dtype
+        obs.check(pi["dtype"] == wdt.str[1:], "invert_contrast", "inverted-file-type", lambda: f"file holds {pi['dtype']}, the map was {a.dtype}", cls=cls)
     except (emfmt.EMError, mrcfmt.MRCError) as e:
         obs.fail("invert_contrast", "file-valid", str(e), cls=ext)
     obs.outcome = (b.shape, str(b.dtype), float(np.asarray(b, dtype=np.float64).ravel()[-1]))
